@@ -326,6 +326,23 @@ func (r *rig) pokeCert(kind, cname string, isIP bool, now time.Time) *tls.Certif
 		return r.mitmCA.mint([]string{swapCase(cname)}, nil, now.Add(-h), now.Add(h))
 	case "untrusted":
 		return r.rogueCA.mint(dns, ips, now.Add(-h), now.Add(h))
+	case "wildcard", "wildcard-expired", "wildcard-other", "wildcard-deep":
+		// wildcard entries: one that covers the name, one for another parent, one with the wrong number of labels
+		labels := strings.Split(cname, ".")
+		if isIP || len(labels) < 2 {
+			return r.mitmCA.mint(dns, ips, now.Add(-h), now.Add(h))
+		}
+		pat := "*." + strings.Join(labels[1:], ".")
+		switch kind {
+		case "wildcard-other":
+			pat = "*.other.test"
+		case "wildcard-deep":
+			pat = "*." + cname
+		}
+		if kind == "wildcard-expired" {
+			return r.mitmCA.mint([]string{pat}, nil, now.Add(-2*h), now.Add(-h))
+		}
+		return r.mitmCA.mint([]string{pat}, nil, now.Add(-h), now.Add(h))
 	case "wrongkind":
 		// the literal as a DNS SAN / the name as nothing at all
 		if isIP {
@@ -567,6 +584,9 @@ func main() {
 	rnd := rng.New(*seed)
 	m := meta{ShardSize: shardSize, Counts: map[string]int{}, Dist: map[string]int{}}
 	thorough := *tier == "thorough"
+	// tier "race": only what stresses the leaf cache (poked entries, capacity 1 under concurrent handshakes,
+	// short validity); meant for a binary built with -race
+	raceOnly := *tier == "race"
 
 	var scs []scaseJSON
 	var kcs []kcaseJSON
@@ -609,6 +629,9 @@ func main() {
 		if thorough {
 			n = 6
 		}
+		if raceOnly {
+			n = 1
+		}
 		for _, s := range enumStrings([]string{"a", "1", ".", ":", "[", "]"}, n) {
 			scs = append(scs, scaseJSON{"split", s})
 		}
@@ -620,13 +643,17 @@ func main() {
 		names := []string{"a.test:443", "A.Test", "Example.COM:8443", "example.com", "10.0.0.1:8443", "10.0.0.1", "[::1]:443", "::1",
 			"[2001:db8::1]:443", "2001:db8::1", "0:0:0:0:0:0:0:1", "[2001:DB8:0:0::1]:1", "xn--nxasmq6b.test:443", "a-b.c-d.test:1"}
 		for _, nm := range names {
-			for _, hit := range []string{"none", "valid", "expired", "notyet", "wrongname", "othercase", "untrusted", "wrongkind"} {
+			for _, hit := range []string{"none", "valid", "expired", "notyet", "wrongname", "othercase", "untrusted", "wrongkind",
+				"wildcard", "wildcard-expired", "wildcard-other", "wildcard-deep"} {
 				kcs = append(kcs, kcaseJSON{"cache", nm, hit})
 			}
 		}
 		// 3. handshakes: filled in below (they need the origins' ports)
 		// 4. inner requests
 		for _, insecure := range []bool{false, true} {
+			if raceOnly {
+				break
+			}
 			for _, ok := range []string{"valid", "expired", "wrongname", "untrusted"} {
 				hosts := []string{"127.0.0.1"}
 				if ok == "valid" {
@@ -692,6 +719,7 @@ func main() {
 		}
 		opts := []proxyOpt{
 			{Name: "all"},
+			{Name: "poke"}, // its cache is the one the cache cases write into
 			{Name: "insecure", Insecure: true},
 			{Name: "domains", Domains: []string{`^.*\.test$`, `-^skip\.test$`, `^::1$`, `^(?i)EXAMPLE\.com$`}},
 			{Name: "tiny", CacheSize: 1, CacheTTL: 300 * time.Millisecond},
@@ -739,7 +767,12 @@ func main() {
 			if net.ParseIP(h) != nil {
 				return []string{"", "sni.test"}
 			}
-			return []string{"", h, strings.ToLower(h), "other-sni.test"}
+			// an SNI the mitm-domains list excludes behind an included CONNECT host, and the other way round
+			cross := "skip.test"
+			if strings.EqualFold(h, "skip.test") {
+				cross = "a.test"
+			}
+			return []string{"", h, strings.ToLower(h), "other-sni.test", cross}
 		}
 		for _, pn := range []string{"all", "domains", "tiny"} {
 			for _, a := range auths {
@@ -754,6 +787,9 @@ func main() {
 						rounds = 3
 						if thorough {
 							rounds = 10
+						}
+						if raceOnly {
+							rounds = 12
 						}
 					}
 					for k := 0; k < rounds; k++ {
@@ -777,7 +813,7 @@ func main() {
 	var kc []string
 	var kj []any
 	for _, c := range kcs {
-		s, err := r.runCacheCase(proxies["all"], c)
+		s, err := r.runCacheCase(proxies["poke"], c)
 		if err != nil {
 			m.Notes = append(m.Notes, fmt.Sprintf("cert(%q) failed: %v", c.Name, err))
 			continue
@@ -796,7 +832,11 @@ func main() {
 	{
 		res := make([]string, len(hcs))
 		var wg sync.WaitGroup
-		sem := make(chan struct{}, 24)
+		width := 24
+		if raceOnly {
+			width = 48
+		}
+		sem := make(chan struct{}, width)
 		for i, c := range hcs {
 			if c.Proxy == "short" {
 				continue
